@@ -20,6 +20,83 @@ CLAIMS = {
               "std::sync::atomic, Lean Std.run, Lean layered model, Lean full twin on the same operation lines."),
         ref="DESIGN.md §3 C12",
         technique="Lean 4 refinement proof (model ⊑ std semantics) + differential correspondence with std atomics"),
+    "C01": dict(
+        text=("Lean 4 theorems for the local pillars of DPOR over the model of rt/path.rs + rt/execution.rs, for all "
+              "paths/states: Path.backtrack_post(+bounded), Exec.schedule_race_post (dporMarks = fold of backtrack over "
+              "racing threads), Exec.schedule_choice/result, the dependence tables and their validity against the "
+              "reference interleaving semantics (commutation of load/load, send/recv, clone/drop; refutations for "
+              "Inspect/RefDec and try_recv/send), DFS visits every marked alternative (C14). The full completeness "
+              "statement is FALSE on the pinned tree: C01_full_false is a kernel-checked witness (F1). End-to-end "
+              "inclusion 'reference outcomes ⊆ explored outcomes' is evaluated per program on exhaustive small "
+              "families against the enumerated reference semantics (Spec/SC.lean), with exact explorer-twin "
+              "correspondence; known findings F1 F5 F7 F9 F10 F17 F18."),
+        ref="DESIGN.md §3 C01",
+        technique="Lean 4 proofs of DPOR pillars + refutation witness; explorer-twin correspondence; reference-outcome enumeration"),
+    "C02": dict(
+        text=("Lean 4 theorems (all states): Sync.no_over_sync, Atomic.no_over_sync, Atomic.candidates_exact (a store is "
+              "withheld from a load ONLY for the three coded reasons), Atomic.candidates_weak, ring_order/ring_guard "
+              "(no eviction below 7 stores), Fence.acq_only_seen. Completeness against RC11 is partial/refuted on the "
+              "pinned tree (F1 F2 F16); it is evaluated per litmus program: every outcome of the executable RC11(strong) "
+              "enumerator must be explored; exact explorer-twin correspondence."),
+        ref="DESIGN.md §3 C02",
+        technique="Lean 4 local laws of the atomic model + RC11 outcome enumeration vs explored outcomes + twin correspondence"),
+    "C03": dict(
+        text=("Lean 4 theorems (all states): VV lattice, Sync.acquire_gets_release, Atomic.store_publishes, load_acquires, "
+              "release_acquire_edge, release_sequence(+edge through RMWs), coherence_vv, load_coherence, store_coherence, "
+              "rmw_reads_maximal, Fence.seqcst_total/chain/order. End-to-end RC11 consistency of every explored "
+              "execution is evaluated: each implementation iteration's outcome must be an outcome of RC11(doc) "
+              "(Spec/RC11.lean); decisions replayed on the twin. Known findings F3 (coherence) and F4 (RMW atomicity)."),
+        ref="DESIGN.md §3 C03",
+        technique="Lean 4 local laws (release/acquire, coherence, fences) + RC11 acceptance of every explored outcome + decision replay"),
+    "C04": dict(
+        text=("Lean 4 theorems: VV.ahead_none_iff_le, Cell.read/write_panics_iff, Atomic.track_panics_iff/track_ok_iff, "
+              "Race.clock_sound: the detector panics iff a recorded conflicting access clock is not ≤ the current "
+              "causality (decision logic, all states). 'Panic iff some execution races' is evaluated against RC11 "
+              "(atomics, fences) and the reference interleaving semantics with textbook vector clocks (locks, channels, "
+              "notify, park, join) on message-passing families; decisions replayed on the twin. Known: F7, F17."),
+        ref="DESIGN.md §3 C04",
+        technique="Lean 4 decision-logic theorems for the race detector + race oracles (RC11, SC+vector clocks) + decision replay"),
+    "C05": dict(
+        text=("Lean 4 theorems: Exec.deadlock_iff_no_runnable (schedule reports deadlock iff no thread runnable/yielded and "
+              "some thread not terminated), Exec.schedule_no_thread, SC.deadlock_def. 'Deadlock iff reachable reference "
+              "deadlock' is evaluated against the enumerated reference semantics; decision replay on the twin (status "
+              "arrays of every schedule point). Known findings F5 F7 F9 F18 (false / missed deadlocks)."),
+        ref="DESIGN.md §3 C05",
+        technique="Lean 4 theorem on schedule's deadlock test + reference reachability oracle + decision replay"),
+    "C07": dict(
+        text=("Lean 4 one-step laws for every twin state: Lock.try_exact, RwLock.try_exact_read/write, exclusion "
+              "(RwWF invariant over arbitrary step sequences), release_wakes, handover_hb (release … acquire ⇒ "
+              "causality ≤, over arbitrary interleaved steps), one-step simulation of Spec/SC (sim_tryLock/lock/unlock, "
+              "rwlock), refutation Lock.blocks_try_acquirers (F9). Evaluated: outcomes = reference outcomes on lock "
+              "families with cells in the critical sections; decision replay."),
+        ref="DESIGN.md §3 C07",
+        technique="Lean 4 one-step refinement lemmas and hand-over invariant + reference outcomes + decision replay"),
+    "C08": dict(
+        text=("Lean 4 laws: Notify.flag_not_lost, Wait.notifier_hb, Notify.single_spurious, Join.never_spurious, "
+              "Wait.only_after_notify + no_other_op_notifies (induction over all lock/wait operations), Park.token/unpark "
+              "tables, Condvar.notify_one_fifo/notify_all/reacquires, Join.after_exit/hb; refuted full forms with "
+              "kernel-checked witnesses (F5/F6, F17, F18). Evaluated against reference outcomes; decision replay."),
+        ref="DESIGN.md §3 C08",
+        technique="Lean 4 state-machine laws for notify/park/condvar/join + reference outcomes + decision replay"),
+    "C09": dict(
+        text=("Lean 4: Chan.counts (invariant), Chan.fifo over arbitrary send/recv runs, recv_blocks_iff_empty, "
+              "try_recv_exact, send_hb_recv, leak_iff, one-step simulation of Spec/SC. Evaluated against reference "
+              "outcomes; decision replay. Known finding F7 (try_recv / Receiver::drop emptiness test unbranched)."),
+        ref="DESIGN.md §3 C09",
+        technique="Lean 4 invariants over channel histories + reference outcomes + decision replay"),
+    "C10": dict(
+        text=("Lean 4: Leak.check_iff/check_first (the end-of-iteration check fails iff some Arc count ≠ 0, some "
+              "allocation undropped, some channel non-empty; first offender decides), Alloc.flag_is_dropped, "
+              "C10_iteration, no stage reports a leak. Evaluated: leak verdict iff reference end state leaks; known "
+              "findings F7, F12 (raw allocation leak aborts)."),
+        ref="DESIGN.md §3 C10",
+        technique="Lean 4 theorems on the leak check + reference leak oracle + decision replay"),
+    "C11": dict(
+        text=("Lean 4: ArcObj.refines_refcount_* (every Arc operation computes the reference counter's result), ArcInv "
+              "preserved, drop_once, drops_hb_final, Dep.arc tables, one-step simulation of Spec/SC. Evaluated against "
+              "reference outcomes incl. payload drop counts; known finding F10."),
+        ref="DESIGN.md §3 C11",
+        technique="Lean 4 refinement lemmas for the Arc object + reference outcomes + decision replay"),
     "C14": dict(
         text=("Machine-checked proof (Lean 4) over the model of rt/path.rs for ALL paths and iterations: step_spec, "
               "frame lemmas for every Path API call, no_repeat (decision vectors pairwise distinct), dfs_order, "
